@@ -469,6 +469,29 @@ macro_rules! fmt_lines { ($out:expr, $rng:expr, $n:expr, $($name:ident),*) => { 
     for n in 0..=255u8 { let h = $name::<u8>::new(n); $out.check(h == $name::<u8>::new(n) && h != $name::<u8>::new(n.wrapping_add(1)) && h == n && u8::from(h) == n, concat!("u8-hue-eq:", stringify!($name)), || n.to_string()); }
 )* } }
 
+/// `f32::from(hue)` / `f64::from(hue)` for hues of either precision: the signed normal form of the STORED angle, then (for the cross-
+/// precision pairs) converted to the other float type — congruent to the stored angle modulo 360 within the rounding error of the stored
+/// angle plus one rounding of the result, and within [-180, 180] up to that rounding
+macro_rules! plain_from { ($out:expr, $rng:expr, $n:expr, $($name:ident),*) => {{ $(
+    let mut xs: Vec<f64> = vec![0.0, 180.0, -180.0, 360.0, -360.0, 179.99999999, -179.99999999, 540.0, 999_999.97, -999_999.97, 1_000_000.0, 123_456.789, 1e-30, -1e-30];
+    for _ in 0..$n { xs.push($rng.range(-1_048_576.0, 1_048_576.0)); xs.push($rng.range(-720.0, 720.0)); }
+    for &x in &xs {
+        let x32 = x as f32;
+        let cong = |r: f64, stored: f64, tol: f64| { let d = (r - stored) / 360.0; ((d - d.round()).abs() * 360.0) <= tol };
+        // stored f64, read as f32 / f64
+        let a: f32 = f32::from($name::<f64>::new(x)); let b: f64 = f64::from($name::<f64>::new(x));
+        // stored f32, read as f64 / f32
+        let c: f64 = f64::from($name::<f32>::new(x32)); let d: f32 = f32::from($name::<f32>::new(x32));
+        let e64 = x.abs().max(360.0) * f64::EPSILON * 4.0; let e32s = (x32.abs().max(360.0) as f64) * (f32::EPSILON as f64) * 4.0; let r32 = 180.0 * (f32::EPSILON as f64);
+        let name = stringify!($name);
+        $out.check(cong(a as f64, x, e64 + r32) && (a as f64).abs() <= 180.0 + r32, &format!("plain-from:f64->f32:{}", name), || format!("f32::from({}::<f64>::new({:e})) = {:e}", name, x, a));
+        $out.check(cong(b, x, e64) && b.abs() <= 180.0 + e64 && b == $name::<f64>::new(x).into_degrees(), &format!("plain-from:f64->f64:{}", name), || format!("f64::from({}::<f64>::new({:e})) = {:e}", name, x, b));
+        $out.check(cong(c, x32 as f64, e32s) && c.abs() <= 180.0 + e32s && c == $name::<f32>::new(x32).into_degrees() as f64, &format!("plain-from:f32->f64:{}", name), || format!("f64::from({}::<f32>::new({:e})) = {:e}", name, x32, c));
+        $out.check(d.to_bits() == $name::<f32>::new(x32).into_degrees().to_bits(), &format!("plain-from:f32->f32:{}", name), || format!("f32::from({}::<f32>::new({:e})) = {:e}", name, x32, d));
+        $out.count("cls:plain-from");
+    }
+)* }} }
+
 pub fn run(tier: &str, seed: u64, dir: &str) {
     let mut out = Out::new("C11", dir);
     let mut rng = Rng::new(seed);
@@ -477,6 +500,7 @@ pub fn run(tier: &str, seed: u64, dir: &str) {
     fmt_lines!(out, rng, if tier == "thorough" { 4000 } else { 400 }, RgbHue, LabHue, LuvHue, OklabHue, Cam16Hue);
 
     wide_lanes(&mut out, &mut rng, if tier == "thorough" { 20_000 } else { 2_000 });
+    plain_from!(out, rng, if tier == "thorough" { 20_000 } else { 1_000 }, RgbHue, LabHue, LuvHue, OklabHue, Cam16Hue);
     // the rotation constants through the public API (cross-check of the extracted/modelled literals)
     {
         use palette::angle::{FullRotation, HalfRotation};
